@@ -404,3 +404,9 @@ func (e *Env) logVariants(rt RouteInfo, n int) []Req {
 	}
 	return out
 }
+
+// isLogRoute: routes that exist only in the log-keeper configuration (plus the runtime-config route enabled there).
+func isLogRoute(rt RouteInfo) bool {
+	p := rt.Pattern
+	return strings.HasPrefix(p, "/api/v1/repository") || strings.HasPrefix(p, "/api/v1/logstream") || strings.HasPrefix(p, "/repo/") || p == "/runtime_config"
+}
